@@ -368,6 +368,8 @@ def run_pool(spec):
     try:
         if spec["kind"] == "random":
             for i in range(spec["runs"]):
+                if res.enough(20):
+                    break
                 prog = gen_program(rng)
                 sseed = rng.getrandbits(32)
                 sched = imodel.Sched(sseed, p_yield=0.3, p_sleep=0.1, max_sleep=0.002)
@@ -391,6 +393,8 @@ def run_pool(spec):
             targets = [(ln, k, pk) for ln in lines for k in spec["ks"] for pk in KINDS]
             targets = [t for i, t in enumerate(targets) if i % spec["parts"] == spec["part"]]
             for (fn, ln), k, pk in targets:
+                if res.enough(20):
+                    break
                 # a fixed small program that exercises hand-off + shutdown + waitall, varied by rng
                 prog = gen_program(rng, pk)
                 if prog["shutdown_at"] is None:
